@@ -102,6 +102,8 @@ type Sim struct {
 	Done func() bool
 	// OnStep is called after every step at quiescence (invariants).
 	OnStep func()
+	// OnRelease is called on the scheduler goroutine just before a task is released.
+	OnRelease func(taskID, site string)
 	// ClockWeight is the weight of the built-in "advance clock" action while
 	// tasks are runnable (0 = only when nothing else is enabled).
 	ClockWeight int
@@ -386,6 +388,13 @@ func WaitUntil(site string, cond func() bool) {
 	s.park(t)
 }
 
+// Sleep blocks the calling task for d of simulated time and parks it afterwards,
+// so that a woken sleeper runs no code before the scheduler releases it.
+func Sleep(d time.Duration) {
+	time.Sleep(d)
+	Yield("harness/slept")
+}
+
 // Rand draws a workload decision from the single choice stream. Must be called
 // by the running task or by the scheduler goroutine.
 func (s *Sim) Rand(n int, label string) int {
@@ -649,6 +658,9 @@ func (s *Sim) Run(root func()) {
 			idleClock = 0
 			s.Stats.TaskSteps++
 			s.note(t.ID + "@" + t.site)
+			if s.OnRelease != nil {
+				s.OnRelease(t.ID, t.site)
+			}
 			runtime.VerifSetSelect(true, s.ch.Nonce())
 			s.release(t)
 		case i < len(run)+len(acts):
